@@ -198,6 +198,15 @@ fn oracle(case: &[u8], obs: &mut Obs) -> Result<(), String> {
             note.push_str("e_shstrndx=SHN_XINDEX+shdr0.sh_link;");
         }
     }
+    if c.chance(40) {
+        // a raw e_shstrndx in the reserved range below SHN_XINDEX is used as declared (only 0xffff escapes)
+        let v = 0xff00 + c.below(0xff);
+        f.overrides.push(Override { target: Target::Ehdr, field: "e_shstrndx", value: v });
+        if nsec > 0 {
+            f.overrides.push(Override { target: Target::Shdr(0), field: "sh_link", value: shstr_idx.unwrap_or(1) as u64 });
+        }
+        note.push_str(&format!("e_shstrndx={:#x} (reserved, not XINDEX);", v));
+    }
     if c.chance(50) {
         let v = entsize_variant(&mut c, m::shdr_size(enc) as u64, m::shdr_size(other) as u64) & 0xffff;
         f.overrides.push(Override { target: Target::Ehdr, field: "e_shentsize", value: v });
@@ -238,7 +247,13 @@ fn oracle(case: &[u8], obs: &mut Obs) -> Result<(), String> {
     let mut compared = 0u64;
     let r: Result<(), String> = with_endian!(spec, |e| (|| -> Result<(), String> {
         let rb = open_as(e, &data);
-        let rs = open_stream_as(e, std::io::Cursor::new(&data));
+        // the reader may be handed over with its cursor away from the start
+        let pos0 = match c.below(8) {
+            0 => 16,
+            1 => c.below(data.len() as u64 + 1),
+            _ => 0,
+        };
+        let rs = open_stream_as(e, verif_model::io::Reader::new(data.clone()).at_position(pos0));
         match (&exp, &rb, &rs) {
             (Err(why), Ok(_), _) => return Err(format!("ElfBytes opened the file although {}", why)),
             (Err(why), _, Ok(_)) => return Err(format!("ElfStream opened the file although {}", why)),
